@@ -57,7 +57,7 @@ RefRun(mm, out, fuel) ==
   LET r == RunToWait(mm, Fuel) IN
   IF r.mode = "input" /\ fuel > 0 THEN RefRun(Reply(r, <<55>>), out \o Printed(r), fuel - 1)
   ELSE [m |-> r, out |-> out \o Printed(r)]
-Ref(p) == RefRun(EnterDirect(EnterAll(InitM, [i \in 1..NLines |-> NoStop(p[i])], 1), <<SRun(-1)>>), <<>>, 6)
+RefOf(p) == RefRun(EnterDirect(EnterAll(InitM, [i \in 1..NLines |-> NoStop(p[i])], 1), <<SRun(-1)>>), <<>>, 6)
 
 Init == /\ prog \in [1..NLines -> Templates]
         /\ m = EnterDirect(EnterAll(InitM, prog, 1), <<SRun(-1)>>)
@@ -87,7 +87,7 @@ Done == m.mode = "ready" /\ (m.cont = NoCont \/ m.contx) /\ ~insp
 \* an END that can be continued is continued by the schedule above but not by the reference;
 \* the comparison is made for programs whose reference run did not pass a continuable END
 Transparent ==
-  Done => LET r == Ref(prog) IN
+  Done => LET r == RefOf(prog) IN
           (r.m.mode = "ready" /\ r.m.cont = NoCont /\ ~r.m.contx /\ m.mode = "ready" /\ ~m.contx) =>
              /\ acc \o Printed(m) = r.out
              /\ m.vars = r.m.vars /\ m.dims = r.m.dims /\ m.dptr = r.m.dptr
